@@ -17,6 +17,8 @@ static int vf_native_failed = 0;
 #define __CPROVER_overflow_mult(a, b) __builtin_mul_overflow_p(a, b, (__typeof__((a) * (b)))0)
 #define VF_PROBE() do { } while (0)
 #define VF_IMP(a, b) (!(a) || (b))
+#define VF_MUL32(a, b) ((unsigned int)((a) * (b)))
+#define VF_MUL64(a, b) ((unsigned long)((a) * (b)))
 #define VF_REPLAY_VALUE(n, v) static const unsigned long long vf_rv_##n = (unsigned long long)(v);
 #define VF_IN(T, n) T n = (T)vf_rv_##n
 #endif
